@@ -81,6 +81,7 @@ type c50Case struct {
 	Probe     string  `json:"probe"`     // read | call | assign | init-second | init-second-branch
 	Scope     int     `json:"scope"`
 	Recv      c50Recv `json:"receiver"`
+	Shape     int     `json:"shape,omitempty"` // declaration shape (see c50Shape)
 	// filled for reports
 	Line    string `json:"probe_line,omitempty"`
 	Program string `json:"program,omitempty"`
@@ -134,18 +135,53 @@ func c50Allowed(c c50Case) bool {
 
 // ---- program text -----------------------------------------------------------------------------------
 
+// c50Shape varies the declarations around the same case space (thorough tier):
+// 0 = Int members in modifier order; 1 = String members; 2 = functions first and
+// members in reverse modifier order.
+var c50Shape = 0
+
+func c50FieldType() string {
+	if c50Shape == 1 {
+		return "String"
+	}
+	return "Int"
+}
+
+func c50Value(v int) string {
+	if c50Shape == 1 {
+		return fmt.Sprintf("\"s%d\"", v)
+	}
+	return fmt.Sprint(v)
+}
+
 func c50Members(declaring string, sb *strings.Builder, indent string) {
+	p := "" // member name prefix
+	if declaring == dContract {
+		p = "c"
+	}
+	ty := c50FieldType()
+	order := make([]int, 0, len(c50Mods))
 	for k, m := range c50Mods {
 		if declaring == dContract && m.Kind == 4 {
 			continue
 		}
-		p := "" // member name prefix
-		if declaring == dContract {
-			p = "c"
+		order = append(order, k)
+	}
+	if c50Shape == 2 {
+		for i, j := 0, len(order)-1; i < j; i, j = i+1, j-1 {
+			order[i], order[j] = order[j], order[i]
 		}
-		fmt.Fprintf(sb, "%s%s let %sl%d: Int\n", indent, m.Src, p, k)
-		fmt.Fprintf(sb, "%s%s var %sv%d: Int\n", indent, m.Src, p, k)
-		fmt.Fprintf(sb, "%s%s fun %sf%d(): Int { return %d }\n", indent, m.Src, p, k, k)
+		for _, k := range order {
+			fmt.Fprintf(sb, "%s%s fun %sf%d(): %s { return %s }\n", indent, c50Mods[k].Src, p, k, ty, c50Value(k))
+		}
+	}
+	for _, k := range order {
+		m := c50Mods[k]
+		fmt.Fprintf(sb, "%s%s let %sl%d: %s\n", indent, m.Src, p, k, ty)
+		fmt.Fprintf(sb, "%s%s var %sv%d: %s\n", indent, m.Src, p, k, ty)
+		if c50Shape != 2 {
+			fmt.Fprintf(sb, "%s%s fun %sf%d(): %s { return %s }\n", indent, m.Src, p, k, ty, c50Value(k))
+		}
 	}
 }
 
@@ -158,7 +194,7 @@ func c50Inits(declaring string, sb *strings.Builder, indent string) {
 		if declaring == dContract {
 			p = "c"
 		}
-		fmt.Fprintf(sb, "%sself.%sl%d = 0\n%sself.%sv%d = 0\n", indent, p, k, indent, p, k)
+		fmt.Fprintf(sb, "%sself.%sl%d = %s\n%sself.%sv%d = %s\n", indent, p, k, c50Value(0), indent, p, k, c50Value(0))
 	}
 }
 
@@ -265,15 +301,15 @@ func c50ProbeLine(c c50Case) (line string, ok bool) {
 	}
 	switch c.Probe {
 	case "read":
-		return setup + "let x: Int = " + recv + "." + name + teardown, true
+		return setup + "let x: " + c50FieldType() + " = " + recv + "." + name + teardown, true
 	case "call":
-		return setup + "let x: Int = " + recv + "." + name + "()" + teardown, true
+		return setup + "let x: " + c50FieldType() + " = " + recv + "." + name + "()" + teardown, true
 	case "assign":
-		return setup + recv + "." + name + " = 7" + teardown, true
+		return setup + recv + "." + name + " = " + c50Value(7) + teardown, true
 	case "init-second":
-		return "self." + name + " = 9", true
+		return "self." + name + " = " + c50Value(9), true
 	case "init-second-branch":
-		return "if self." + prefix + "v3 == 0 { self." + name + " = 9 }", true
+		return "if self." + prefix + "v3 == " + c50Value(0) + " { self." + name + " = " + c50Value(9) + " }", true
 	}
 	return "", false
 }
@@ -378,7 +414,7 @@ func (c *c50) run(cs c50Case) (evaluated bool) {
 	err, panicked := h.Check(src, loc)
 	want := c50Allowed(cs)
 	nt := cs.Scope != 0 && c50Mods[cs.Mod].Kind != 3
-	c.rec.Case(nt, cs.Declaring, cs.Mod, cs.Member, cs.Probe, cs.Scope, cs.Recv.String())
+	c.rec.Case(nt, cs.Shape, cs.Declaring, cs.Mod, cs.Member, cs.Probe, cs.Scope, cs.Recv.String())
 	c.rec.Class("modifier:" + c50Mods[cs.Mod].Name)
 	c.rec.Class("probe:" + cs.Probe + "/" + cs.Member)
 	c.rec.Class("scope:" + c50Scopes[cs.Scope])
@@ -431,6 +467,35 @@ func TestC50(t *testing.T) {
 		"dropped); exactly one probe per program, checked through runtime.ParseAndCheckProgram with the other contracts deployed; the checker must accept exactly "+
 		"when an independent scope model allows, and a rejection must carry an access/assignment error on the probe line. Non-trivial: scope is not the declaring "+
 		"composite itself and the modifier is not access(all). Distinct by the case tuple.")
+	shapes := []int{0}
+	if evid.Thorough() {
+		shapes = []int{0, 1, 2}
+	}
+	if f := evid.ReplayFile(); f != "" {
+		var cs c50Case
+		if err := evid.LoadReplay(f, &cs); err != nil {
+			t.Fatalf("bad replay file: %v", err)
+		}
+		shapes = []int{cs.Shape}
+	}
+	for _, shape := range shapes {
+		c50Shape = shape
+		c50RunShape(t, rec)
+	}
+	if evid.ReplayFile() != "" {
+		return
+	}
+	rec.SetExhaustive(true)
+	rec.Extra("exhaustive_subspaces", "the whole case space described in the rule (merged over shards)")
+	rec.Extra("declaration_shapes", len(shapes))
+	for _, s := range c50Scopes {
+		rec.RequireClasses(t, "scope:"+s)
+	}
+	rec.RequireClasses(t, "model-allows:true", "model-allows:false", "probe:init-second-branch/let", "receiver:ref", "receiver:self", "receiver:owned",
+		"declaring:S", "declaring:R", "declaring:C1")
+}
+
+func c50RunShape(t *testing.T, rec *evid.Rec) {
 	c := &c50{t: t, rec: rec, c1: c50ContractC1()}
 	c.bare = host.New()
 	c.deployed = host.New()
@@ -445,7 +510,7 @@ func TestC50(t *testing.T) {
 	if err, p := c.bare.Check(clean, common.AddressLocation{Address: host.Addr(1), Name: "C1"}); err != nil || p != nil {
 		rec.Violation(t, c50Case{Probe: "assign-in-init", Program: clean}, "the base program (every let/var field assigned exactly once in init) is rejected: %v %v", err, p)
 	}
-	rec.Case(false, "base")
+	rec.Case(false, "base", c50Shape)
 
 	if f := evid.ReplayFile(); f != "" {
 		var cs c50Case
@@ -473,17 +538,10 @@ func TestC50(t *testing.T) {
 						if idx%evid.Shards() != evid.Shard() {
 							continue
 						}
-						c.run(c50Case{Declaring: d, Mod: mi, Probe: pm[0], Member: pm[1], Scope: scope, Recv: rv})
+						c.run(c50Case{Declaring: d, Mod: mi, Probe: pm[0], Member: pm[1], Scope: scope, Recv: rv, Shape: c50Shape})
 					}
 				}
 			}
 		}
 	}
-	rec.SetExhaustive(true)
-	rec.Extra("exhaustive_subspaces", "the whole case space described in the rule (merged over shards)")
-	for _, s := range c50Scopes {
-		rec.RequireClasses(t, "scope:"+s)
-	}
-	rec.RequireClasses(t, "model-allows:true", "model-allows:false", "probe:init-second-branch/let", "receiver:ref", "receiver:self", "receiver:owned",
-		"declaring:S", "declaring:R", "declaring:C1")
 }
